@@ -49,7 +49,7 @@ inductive XExpr
   | powi (a : XExpr) (n : ℤ)
   | neg (a : XExpr)
   | app (f : Fn1) (a : XExpr)
-deriving Repr
+deriving DecidableEq, Repr
 
 /-- interpretation of the constant `pi` and of the function symbols; `none`: not a real number -/
 structure Interp (K : Type*) where
@@ -119,7 +119,7 @@ def Expr.toX : Expr → XExpr
 structure EObj where
   par : Par
   e : XExpr
-deriving Repr
+deriving DecidableEq, Repr
 
 /-- `Expression.__init__`: `super().__init__(name, periodic=False)` (no value, no bounds), `_symbol = sp.S(name)` -/
 def EObj.init (e : XExpr) : EObj := ⟨⟨none, none, false, true, none⟩, e⟩
